@@ -2,13 +2,1075 @@ package main
 
 import (
 	"encoding/json"
-	"errors"
+	"encoding/xml"
+	"fmt"
+	"io"
 	"math/rand"
+	"os"
+	"path/filepath"
+	"regexp"
+	"sort"
+	"strings"
+
+	"deps.dev/util/resolve"
+	"deps.dev/util/resolve/dep"
+	scalibrfs "github.com/google/osv-scalibr/fs"
+	"github.com/google/osv-scalibr/guidedremediation"
+	"github.com/google/osv-scalibr/guidedremediation/result"
+
+	cf "verifharness/internal/coqfmt"
 )
+
+// ---------------------------------------------------------------- pom.xml generator
+
+type pDep struct {
+	G, A, V    string // V == "" : no <version> element
+	Type       string
+	Classifier string
+	Scope      string
+	Optional   bool
+	Excl       bool
+	VStyle     int // 0 plain, 1 CDATA, 2 blanks around the text, 3 comment inside <version>
+	Comment    string
+}
+
+type pProfile struct {
+	ID    string
+	Props [][2]string
+	Deps  []pDep
+	Mgmt  []pDep
+}
+
+type pPlugin struct {
+	G, A, V string
+	Deps    []pDep
+	Managed bool // under <pluginManagement>
+}
+
+type pParentRef struct{ G, A, V, Rel string }
+
+type pPom struct {
+	NS, Decl    bool
+	LeadComment string
+	TailComment string
+	PI          bool
+	G, A, V     string
+	Packaging   string
+	Parent      *pParentRef
+	Props       [][2]string
+	Deps        []pDep
+	HasDeps     bool
+	Mgmt        []pDep
+	HasMgmt     bool
+	Profiles    []pProfile
+	Plugins     []pPlugin
+	Ind         string
+	NL          string
+	Order       []string // order of the top-level blocks
+}
+
+func esc(s string) string {
+	var sb strings.Builder
+	xml.EscapeText(&sb, []byte(s))
+	return sb.String()
+}
+
+func (p *pPom) dep(sb *strings.Builder, d pDep, ind string) {
+	nl, i := p.NL, p.Ind
+	if d.Comment != "" {
+		sb.WriteString(ind + "<!-- " + d.Comment + " -->" + nl)
+	}
+	sb.WriteString(ind + "<dependency>" + nl)
+	sb.WriteString(ind + i + "<groupId>" + d.G + "</groupId>" + nl)
+	sb.WriteString(ind + i + "<artifactId>" + d.A + "</artifactId>" + nl)
+	if d.V != "" {
+		switch d.VStyle {
+		case 1:
+			sb.WriteString(ind + i + "<version><![CDATA[" + d.V + "]]></version>" + nl)
+		case 2:
+			sb.WriteString(ind + i + "<version>" + nl + ind + i + i + esc(d.V) + nl + ind + i + "</version>" + nl)
+		case 3:
+			sb.WriteString(ind + i + "<version>" + esc(d.V) + "<!-- pinned --></version>" + nl)
+		default:
+			sb.WriteString(ind + i + "<version>" + esc(d.V) + "</version>" + nl)
+		}
+	}
+	if d.Type != "" {
+		sb.WriteString(ind + i + "<type>" + d.Type + "</type>" + nl)
+	}
+	if d.Classifier != "" {
+		sb.WriteString(ind + i + "<classifier>" + d.Classifier + "</classifier>" + nl)
+	}
+	if d.Scope != "" {
+		sb.WriteString(ind + i + "<scope>" + d.Scope + "</scope>" + nl)
+	}
+	if d.Optional {
+		sb.WriteString(ind + i + "<optional>true</optional>" + nl)
+	}
+	if d.Excl {
+		sb.WriteString(ind + i + "<exclusions>" + nl + ind + i + i + "<exclusion>" + nl +
+			ind + i + i + i + "<groupId>org.excluded</groupId>" + nl + ind + i + i + i + "<artifactId>ex</artifactId>" + nl +
+			ind + i + i + "</exclusion>" + nl + ind + i + "</exclusions>" + nl)
+	}
+	sb.WriteString(ind + "</dependency>" + nl)
+}
+
+func (p *pPom) deps(sb *strings.Builder, ds []pDep, ind string) {
+	if len(ds) == 0 {
+		sb.WriteString(ind + "<dependencies/>" + p.NL)
+		return
+	}
+	sb.WriteString(ind + "<dependencies>" + p.NL)
+	for _, d := range ds {
+		p.dep(sb, d, ind+p.Ind)
+	}
+	sb.WriteString(ind + "</dependencies>" + p.NL)
+}
+
+func (p *pPom) props(sb *strings.Builder, ps [][2]string, ind string) {
+	sb.WriteString(ind + "<properties>" + p.NL)
+	for _, kv := range ps {
+		sb.WriteString(ind + p.Ind + "<" + kv[0] + ">" + esc(kv[1]) + "</" + kv[0] + ">" + p.NL)
+	}
+	sb.WriteString(ind + "</properties>" + p.NL)
+}
+
+func (p *pPom) render() string {
+	var sb strings.Builder
+	nl, i := p.NL, p.Ind
+	if p.Decl {
+		sb.WriteString("<?xml version=\"1.0\" encoding=\"UTF-8\"?>" + nl)
+	}
+	if p.LeadComment != "" {
+		sb.WriteString("<!-- " + p.LeadComment + " -->" + nl)
+	}
+	if p.NS {
+		sb.WriteString("<project xmlns=\"http://maven.apache.org/POM/4.0.0\" xmlns:xsi=\"http://www.w3.org/2001/XMLSchema-instance\"" + nl +
+			i + "xsi:schemaLocation=\"http://maven.apache.org/POM/4.0.0 http://maven.apache.org/xsd/maven-4.0.0.xsd\">" + nl)
+	} else {
+		sb.WriteString("<project>" + nl)
+	}
+	sb.WriteString(i + "<modelVersion>4.0.0</modelVersion>" + nl)
+	if p.PI {
+		sb.WriteString(i + "<?keep this?>" + nl)
+	}
+	for _, blk := range p.Order {
+		switch blk {
+		case "coords":
+			if p.G != "" {
+				sb.WriteString(i + "<groupId>" + p.G + "</groupId>" + nl)
+			}
+			sb.WriteString(i + "<artifactId>" + p.A + "</artifactId>" + nl)
+			if p.V != "" {
+				sb.WriteString(i + "<version>" + p.V + "</version>" + nl)
+			}
+			if p.Packaging != "" {
+				sb.WriteString(i + "<packaging>" + p.Packaging + "</packaging>" + nl)
+			}
+			sb.WriteString(i + "<name>demo &amp; co</name>" + nl)
+		case "parent":
+			if p.Parent != nil {
+				sb.WriteString(i + "<parent>" + nl + i + i + "<groupId>" + p.Parent.G + "</groupId>" + nl + i + i + "<artifactId>" + p.Parent.A + "</artifactId>" + nl +
+					i + i + "<version>" + p.Parent.V + "</version>" + nl)
+				if p.Parent.Rel != "" {
+					sb.WriteString(i + i + "<relativePath>" + p.Parent.Rel + "</relativePath>" + nl)
+				}
+				sb.WriteString(i + "</parent>" + nl)
+			}
+		case "props":
+			if len(p.Props) > 0 {
+				p.props(&sb, p.Props, i)
+			}
+		case "deps":
+			if p.HasDeps {
+				p.deps(&sb, p.Deps, i)
+			}
+		case "mgmt":
+			if p.HasMgmt {
+				sb.WriteString(i + "<dependencyManagement>" + nl)
+				p.deps(&sb, p.Mgmt, i+i)
+				sb.WriteString(i + "</dependencyManagement>" + nl)
+			}
+		case "profiles":
+			if len(p.Profiles) > 0 {
+				sb.WriteString(i + "<profiles>" + nl)
+				for _, pr := range p.Profiles {
+					sb.WriteString(i + i + "<profile>" + nl + i + i + i + "<id>" + pr.ID + "</id>" + nl)
+					if len(pr.Props) > 0 {
+						p.props(&sb, pr.Props, i+i+i)
+					}
+					if len(pr.Deps) > 0 {
+						p.deps(&sb, pr.Deps, i+i+i)
+					}
+					if len(pr.Mgmt) > 0 {
+						sb.WriteString(i + i + i + "<dependencyManagement>" + nl)
+						p.deps(&sb, pr.Mgmt, i+i+i+i)
+						sb.WriteString(i + i + i + "</dependencyManagement>" + nl)
+					}
+					sb.WriteString(i + i + "</profile>" + nl)
+				}
+				sb.WriteString(i + "</profiles>" + nl)
+			}
+		case "build":
+			if len(p.Plugins) > 0 {
+				sb.WriteString(i + "<build>" + nl)
+				for _, managed := range []bool{true, false} {
+					var sel []pPlugin
+					for _, pl := range p.Plugins {
+						if pl.Managed == managed {
+							sel = append(sel, pl)
+						}
+					}
+					if len(sel) == 0 {
+						continue
+					}
+					ind := i + i
+					if managed {
+						sb.WriteString(i + i + "<pluginManagement>" + nl)
+						ind = i + i + i
+					}
+					sb.WriteString(ind + "<plugins>" + nl)
+					for _, pl := range sel {
+						sb.WriteString(ind + i + "<plugin>" + nl + ind + i + i + "<groupId>" + pl.G + "</groupId>" + nl + ind + i + i + "<artifactId>" + pl.A + "</artifactId>" + nl)
+						if pl.V != "" {
+							sb.WriteString(ind + i + i + "<version>" + pl.V + "</version>" + nl)
+						}
+						sb.WriteString(ind + i + i + "<configuration><release>11</release><!-- cfg --></configuration>" + nl)
+						if len(pl.Deps) > 0 {
+							p.deps(&sb, pl.Deps, ind+i+i)
+						}
+						sb.WriteString(ind + i + "</plugin>" + nl)
+					}
+					sb.WriteString(ind + "</plugins>" + nl)
+					if managed {
+						sb.WriteString(i + i + "</pluginManagement>" + nl)
+					}
+				}
+				sb.WriteString(i + "</build>" + nl)
+			}
+		}
+	}
+	sb.WriteString("</project>" + nl)
+	if p.TailComment != "" {
+		sb.WriteString("<!-- " + p.TailComment + " -->" + nl)
+	}
+	return sb.String()
+}
+
+var (
+	mGroups    = []string{"org.example", "com.acme", "io.x"}
+	mArtifacts = []string{"alpha", "beta", "gamma", "delta-core", "eps_lib", "zeta"}
+	mLiterals  = []string{"1.2.3", "2.0", "1.0.0-SNAPSHOT", "[1.0,2.0)", "4.12", "32.1.3-jre", "0.9", "1"}
+	mNewVers   = []string{"2.0.0", "1.10", "3", "1", "33.0-jre", "1.9.1-jre", "1.5", "1.2.4", "5.0.0.RELEASE", "2", "1-jre", "10.1"}
+)
+
+type propEnv struct {
+	defs [][2]string
+	n    int
+}
+
+// version text for a dependency, possibly through properties that get defined in env
+func genVersion(rng *rand.Rand, env *propEnv) string {
+	newProp := func(val string) string {
+		env.n++
+		name := fmt.Sprintf("%s%d.version", pick(rng, []string{"lib", "dep", "x"}), env.n)
+		if rng.Intn(4) == 0 {
+			name = fmt.Sprintf("v%d", env.n)
+		}
+		env.defs = append(env.defs, [2]string{name, val})
+		return name
+	}
+	switch r := rng.Intn(100); {
+	case r < 50:
+		return pick(rng, mLiterals)
+	case r < 70:
+		return "${" + newProp(pick(rng, mLiterals)) + "}"
+	case r < 80:
+		return pick(rng, []string{"1.", "2.0.", "1"}) + "${" + newProp(pick(rng, []string{"5", "0", "12"})) + "}"
+	case r < 88:
+		return "${" + newProp(pick(rng, []string{"32.0", "1.1", "7"})) + "}" + pick(rng, []string{"-jre", ".Final", "-SNAPSHOT"})
+	case r < 94:
+		return "${" + newProp(pick(rng, []string{"1", "4"})) + "}" + pick(rng, []string{".", "-", ".0."}) + "${" + newProp(pick(rng, []string{"2", "12"})) + "}"
+	case r < 97 && len(env.defs) > 0: // share an existing property
+		return "${" + env.defs[rng.Intn(len(env.defs))][0] + "}"
+	default:
+		return "${undefined.prop}"
+	}
+}
+
+func genDeps(rng *rand.Rand, env *propEnv, n int, allowNoVersion bool, used map[string]bool) []pDep {
+	var out []pDep
+	for k := 0; k < n; k++ {
+		d := pDep{G: pick(rng, mGroups), A: pick(rng, mArtifacts)}
+		if rng.Intn(6) == 0 {
+			d.Classifier = pick(rng, []string{"tests", "sources"})
+		}
+		if rng.Intn(8) == 0 {
+			d.Type = pick(rng, []string{"pom", "test-jar", "jar"})
+		}
+		key := d.G + ":" + d.A + ":" + d.Type + ":" + d.Classifier
+		if d.Type == "jar" {
+			key = d.G + ":" + d.A + "::" + d.Classifier
+		}
+		if used[key] {
+			continue
+		}
+		used[key] = true
+		if !(allowNoVersion && rng.Intn(6) == 0) {
+			d.V = genVersion(rng, env)
+		}
+		if rng.Intn(5) == 0 {
+			d.Scope = pick(rng, []string{"test", "provided", "runtime"})
+		}
+		d.Optional = rng.Intn(10) == 0
+		d.Excl = rng.Intn(10) == 0
+		switch r := rng.Intn(240); {
+		case r == 0:
+			d.VStyle = 2
+		case r == 1:
+			d.VStyle = 3
+		case r < 30:
+			d.VStyle = 1
+		}
+		if rng.Intn(8) == 0 {
+			d.Comment = pick(rng, []string{"keep in sync", "see issue #12 <-> 13", "TODO"})
+		}
+		out = append(out, d)
+	}
+	return out
+}
+
+func genPom(rng *rand.Rand, isParent bool, depth int) *pPom {
+	p := &pPom{NS: rng.Intn(3) > 0, Decl: rng.Intn(4) > 0, G: "com.mycompany", A: "app", V: "1.0", Ind: pick(rng, []string{"  ", "    ", "\t"}), NL: "\n"}
+	if rng.Intn(10) == 0 {
+		p.NL = "\r\n"
+	}
+	if isParent {
+		p.A = fmt.Sprintf("parent%d", depth)
+		p.Packaging = "pom"
+		p.V = "1.1.1"
+	}
+	if rng.Intn(5) == 0 {
+		p.LeadComment = "generated; do not edit"
+	}
+	if rng.Intn(6) == 0 {
+		p.TailComment = "end"
+	}
+	p.PI = rng.Intn(12) == 0
+	env := &propEnv{}
+	if rng.Intn(10) < 8 {
+		p.HasDeps = true
+		p.Deps = genDeps(rng, env, rng.Intn(5), true, map[string]bool{})
+	}
+	if rng.Intn(10) < 5 {
+		p.HasMgmt = true
+		p.Mgmt = genDeps(rng, env, rng.Intn(4), false, map[string]bool{})
+	}
+	if rng.Intn(10) < 3 {
+		for k := 0; k < 1+rng.Intn(2); k++ {
+			penv := &propEnv{n: 100 * (k + 1)}
+			pr := pProfile{ID: fmt.Sprintf("profile-%d", k+1)}
+			pr.Deps = genDeps(rng, penv, rng.Intn(3), false, map[string]bool{})
+			if rng.Intn(2) == 0 {
+				pr.Mgmt = genDeps(rng, penv, 1+rng.Intn(2), false, map[string]bool{})
+			}
+			// profile properties: in the profile or at project level
+			for _, d := range penv.defs {
+				if rng.Intn(2) == 0 {
+					pr.Props = append(pr.Props, d)
+				} else {
+					env.defs = append(env.defs, d)
+				}
+			}
+			if len(pr.Deps)+len(pr.Mgmt) > 0 {
+				p.Profiles = append(p.Profiles, pr)
+			}
+		}
+	}
+	if rng.Intn(10) < 3 {
+		for k := 0; k < 1+rng.Intn(2); k++ {
+			pl := pPlugin{G: "org.plugins", A: fmt.Sprintf("plug-%d", k+1), V: pick(rng, []string{"3.1", "", "2.5.1"}), Managed: rng.Intn(2) == 0}
+			pl.Deps = genDeps(rng, env, rng.Intn(3), false, map[string]bool{})
+			p.Plugins = append(p.Plugins, pl)
+		}
+	}
+	p.Props = append(p.Props, [2]string{"project.build.sourceEncoding", "UTF-8"})
+	p.Props = append(p.Props, env.defs...)
+	if rng.Intn(3) == 0 {
+		p.Props = p.Props[1:]
+	}
+	rng.Shuffle(len(p.Props), func(a, b int) { p.Props[a], p.Props[b] = p.Props[b], p.Props[a] })
+	p.Order = []string{"coords", "parent", "props", "deps", "mgmt", "profiles", "build"}
+	if rng.Intn(3) == 0 {
+		rng.Shuffle(len(p.Order), func(a, b int) { p.Order[a], p.Order[b] = p.Order[b], p.Order[a] })
+	}
+	return p
+}
+
+type pomFile struct {
+	Path string `json:"path"`
+	Pom  *pPom  `json:"pom"`
+}
+
+// genProject returns the poms of one case: the main pom first, then its local parent chain.
+func genProject(rng *rand.Rand) []pomFile {
+	child := genPom(rng, false, 0)
+	main := "pom.xml"
+	chain := []pomFile{{Pom: child}}
+	if rng.Intn(10) < 4 { // local parent (and sometimes a grandparent)
+		main = "child/pom.xml"
+		parent := genPom(rng, true, 1)
+		rel := ""
+		parentPath := "pom.xml" // default ../pom.xml
+		if rng.Intn(2) == 0 {
+			rel = "../parent/pom.xml"
+			parentPath = "parent/pom.xml"
+			if rng.Intn(3) == 0 {
+				rel = "../parent" // directory form
+			}
+		}
+		child.Parent = &pParentRef{G: parent.G, A: parent.A, V: parent.V, Rel: rel}
+		if rng.Intn(3) == 0 {
+			child.G = "" // inherited
+		}
+		// the child may use properties defined in the parent
+		if len(parent.Props) > 0 && len(child.Deps) > 0 && rng.Intn(2) == 0 {
+			pp := parent.Props[rng.Intn(len(parent.Props))]
+			if pp[0] != "project.build.sourceEncoding" {
+				child.Deps[rng.Intn(len(child.Deps))].V = "${" + pp[0] + "}"
+			}
+		}
+		chain = append(chain, pomFile{Path: parentPath, Pom: parent})
+		if rng.Intn(4) == 0 {
+			gp := genPom(rng, true, 2)
+			parent.Parent = &pParentRef{G: gp.G, A: gp.A, V: gp.V, Rel: "../gp/pom.xml"}
+			gpPath := "gp/pom.xml"
+			if parentPath == "pom.xml" {
+				parent.Parent.Rel = "gp/pom.xml"
+			}
+			chain = append(chain, pomFile{Path: gpPath, Pom: gp})
+		}
+	}
+	chain[0].Path = main
+	return chain
+}
+
+// ---------------------------------------------------------------- case
+
+type mUpdate struct {
+	Name       string `json:"name"`
+	From       string `json:"from"`
+	To         string `json:"to"`
+	Origin     string `json:"origin,omitempty"`
+	Type       string `json:"type,omitempty"`
+	Classifier string `json:"classifier,omitempty"`
+	Scope      string `json:"scope,omitempty"`
+	Test       bool   `json:"test,omitempty"`
+	Opt        bool   `json:"opt,omitempty"`
+	Excl       string `json:"excl,omitempty"`
+	New        bool   `json:"new,omitempty"` // not addressed to a present requirement (to be added to dependencyManagement)
+}
+
+func (u mUpdate) depType() dep.Type {
+	var t dep.Type
+	if u.Opt {
+		t.AddAttr(dep.Opt, "")
+	}
+	if u.Test {
+		t.AddAttr(dep.Test, "")
+	}
+	if u.Scope != "" {
+		t.AddAttr(dep.Scope, u.Scope)
+	}
+	if u.Type != "" {
+		t.AddAttr(dep.MavenArtifactType, u.Type)
+	}
+	if u.Classifier != "" {
+		t.AddAttr(dep.MavenClassifier, u.Classifier)
+	}
+	if u.Excl != "" {
+		t.AddAttr(dep.MavenExclusions, u.Excl)
+	}
+	if u.Origin != "" {
+		t.AddAttr(dep.MavenDependencyOrigin, u.Origin)
+	}
+	return t
+}
+
+func updateOfReq(r resolve.RequirementVersion, to string) mUpdate {
+	u := mUpdate{Name: r.Name, From: r.Version, To: to}
+	u.Origin, _ = r.Type.GetAttr(dep.MavenDependencyOrigin)
+	u.Type, _ = r.Type.GetAttr(dep.MavenArtifactType)
+	u.Classifier, _ = r.Type.GetAttr(dep.MavenClassifier)
+	u.Scope, _ = r.Type.GetAttr(dep.Scope)
+	u.Excl, _ = r.Type.GetAttr(dep.MavenExclusions)
+	u.Test = r.Type.HasAttr(dep.Test)
+	u.Opt = r.Type.HasAttr(dep.Opt)
+	return u
+}
+
+func mReqKey(name, typ, classifier string) string {
+	if typ == "" {
+		typ = "jar"
+	}
+	return name + "|" + typ + "|" + classifier
+}
+
+func mReqString(r resolve.RequirementVersion) string {
+	u := updateOfReq(r, "")
+	return fmt.Sprintf("%s|%s|%s|%s|%s", mReqKey(u.Name, u.Type, u.Classifier), u.Origin, u.Scope, u.Excl, r.Version)
+}
+
+type propPair struct {
+	S1 string `json:"s1"`
+	S2 string `json:"s2"`
+}
+
+type pomCase struct {
+	Stream  string            `json:"stream"`
+	Chain   []pomFile         `json:"chain"` // main pom first, then the local parent chain
+	Files   map[string]string `json:"files"` // rendered from Chain
+	Main    string            `json:"main"`
+	Updates []mUpdate         `json:"updates"`
+
+	Outcome    string            `json:"outcome"` // ok | err | panic | read-error
+	Err        string            `json:"err,omitempty"`
+	Out        map[string]string `json:"out,omitempty"`
+	Reqs       []string          `json:"reqs,omitempty"`
+	Reread     []string          `json:"reread,omitempty"`
+	Want       []string          `json:"want,omitempty"`
+	TokensOK   bool              `json:"tokens_ok"`
+	TokensNote string            `json:"tokens_note,omitempty"`
+	RereadOK   bool              `json:"reread_ok"`
+	Claimed    bool              `json:"claimed"` // structural part of the oracle's domain (see claimedDomain)
+	ClaimNote  string            `json:"claim_note,omitempty"`
+	PropPairs  []propPair        `json:"prop_pairs,omitempty"` // generatePropertyPatches calls Write must make, in order
+}
+
+func (c *pomCase) coq() string {
+	pairs := make([]string, len(c.PropPairs))
+	for i, p := range c.PropPairs {
+		pairs[i] = fmt.Sprintf("(%s, %s)", cf.Str(p.S1), cf.Str(p.S2))
+	}
+	l := "(@nil (bytes * bytes))"
+	if len(pairs) > 0 {
+		l = cf.List(pairs)
+	}
+	good := c.Outcome == "ok" && c.TokensOK && c.RereadOK
+	return fmt.Sprintf("{| mc_prop_pairs := %s; mc_zero_updates := %s; mc_claimed := %s; mc_panic := %s; mc_error := %s; mc_good := %s |}",
+		l, cf.Bool(len(c.Updates) == 0), cf.Bool(c.Claimed), cf.Bool(c.Outcome == "panic"), cf.Bool(c.Outcome == "err"), cf.Bool(good))
+}
+
+// ---------------------------------------------------------------- XML tokens (oracle side: encoding/xml)
+
+type tok struct {
+	Kind string // S E T C P D
+	Text string
+	Path string // element path at this token (for T: the enclosing elements)
+}
+
+func tokenize(src string) ([]tok, error) {
+	dec := xml.NewDecoder(strings.NewReader(src))
+	var out []tok
+	var stack []string
+	for {
+		t, err := dec.Token()
+		if err == io.EOF {
+			break
+		}
+		if err != nil {
+			return out, err
+		}
+		path := strings.Join(stack, ">")
+		switch tt := t.(type) {
+		case xml.StartElement:
+			attrs := make([]string, 0, len(tt.Attr))
+			for _, a := range tt.Attr {
+				attrs = append(attrs, a.Name.Space+" "+a.Name.Local+"="+a.Value)
+			}
+			sort.Strings(attrs)
+			out = append(out, tok{"S", tt.Name.Space + " " + tt.Name.Local + " [" + strings.Join(attrs, ",") + "]", path})
+			stack = append(stack, tt.Name.Local)
+		case xml.EndElement:
+			stack = stack[:len(stack)-1]
+			out = append(out, tok{"E", tt.Name.Space + " " + tt.Name.Local, strings.Join(stack, ">")})
+		case xml.CharData:
+			if n := len(out); n > 0 && out[n-1].Kind == "T" {
+				out[n-1].Text += string(tt) // adjacent text and CDATA are one text
+			} else {
+				out = append(out, tok{"T", string(tt), path})
+			}
+		case xml.Comment:
+			out = append(out, tok{"C", string(tt), path})
+		case xml.ProcInst:
+			out = append(out, tok{"P", tt.Target + " " + string(tt.Inst), path})
+		case xml.Directive:
+			out = append(out, tok{"D", string(tt), path})
+		}
+	}
+	return out, nil
+}
+
+func isBlank(s string) bool { return strings.TrimSpace(s) == "" }
+
+func dropBlank(ts []tok) []tok {
+	var out []tok
+	for _, t := range ts {
+		if t.Kind == "T" && isBlank(t.Text) {
+			continue
+		}
+		out = append(out, t)
+	}
+	return out
+}
+
+var versionPathRe = regexp.MustCompile(`(^|>)(dependency|parent)>version$`)
+var propPathRe = regexp.MustCompile(`(^|>)properties>[^>]+$`)
+
+// compareTokens: "everything else preserved". strict: no difference at all. Otherwise the only
+// differences allowed are texts directly inside dependency>version, parent>version and properties>X;
+// when insertion is true, added <dependency> subtrees / an added <dependencyManagement> block are
+// allowed and blank text is ignored.
+func compareTokens(in, out string, strict, insertion bool) (bool, string) {
+	ti, err := tokenize(in)
+	if err != nil {
+		return false, "input does not tokenize: " + err.Error()
+	}
+	to, err := tokenize(out)
+	if err != nil {
+		return false, "output does not tokenize: " + err.Error()
+	}
+	if insertion {
+		ti, to = dropBlank(ti), dropBlank(to)
+	}
+	i, j := 0, 0
+	for i < len(ti) && j < len(to) {
+		a, b := ti[i], to[j]
+		if a.Kind == b.Kind && a.Text == b.Text {
+			i++
+			j++
+			continue
+		}
+		if !strict && a.Kind == "T" && b.Kind == "T" && (versionPathRe.MatchString(a.Path) || propPathRe.MatchString(a.Path)) {
+			i++
+			j++
+			continue
+		}
+		if !strict && a.Kind == "E" && b.Kind == "T" && (versionPathRe.MatchString(b.Path) || propPathRe.MatchString(b.Path)) {
+			j++ // empty element got a text
+			continue
+		}
+		if !strict && a.Kind == "T" && b.Kind == "E" && (versionPathRe.MatchString(a.Path) || propPathRe.MatchString(a.Path)) {
+			i++ // the new text is empty
+			continue
+		}
+		if insertion && b.Kind == "S" && (strings.Contains(b.Text, " dependency [") || strings.Contains(b.Text, " dependencyManagement [")) {
+			// skip the inserted subtree
+			depth := 0
+			for j < len(to) {
+				if to[j].Kind == "S" {
+					depth++
+				} else if to[j].Kind == "E" {
+					depth--
+				}
+				j++
+				if depth == 0 {
+					break
+				}
+			}
+			continue
+		}
+		return false, fmt.Sprintf("token %d/%d differs: in %s %q (at %s) out %s %q", i, j, a.Kind, a.Text, a.Path, b.Kind, b.Text)
+	}
+	if i != len(ti) || j != len(to) {
+		return false, fmt.Sprintf("token count differs: %d consumed of %d in, %d of %d out", i, len(ti), j, len(to))
+	}
+	return true, ""
+}
+
+// ---------------------------------------------------------------- run
+
+var placeholderRe = regexp.MustCompile(`\$\{[^}]*\}`)
+
+func readMaven(dir, main string) (guidedremediation.VerifManifest, error) {
+	return guidedremediation.VerifManifestRead(resolve.Maven, "", main, scalibrfs.DirFS(dir))
+}
+
+func allReqs(m guidedremediation.VerifManifest) []resolve.RequirementVersion {
+	reqs := append([]resolve.RequirementVersion{}, m.Requirements()...)
+	if sp, ok := m.EcosystemSpecific().(guidedremediation.VerifMavenSpecific); ok {
+		reqs = append(reqs, sp.RequirementsForUpdates...)
+	}
+	return reqs
+}
+
+func (c *pomCase) run(pickUpdates func(m guidedremediation.VerifManifest, reqs []resolve.RequirementVersion) []mUpdate) {
+	dir, err := os.MkdirTemp("", "c13mvn")
+	if err != nil {
+		panic(err)
+	}
+	defer os.RemoveAll(dir)
+	c.Outcome, c.Err, c.Out, c.Reqs, c.Reread, c.Want = "", "", nil, nil, nil, nil
+	c.TokensOK, c.TokensNote, c.RereadOK, c.Claimed, c.ClaimNote, c.PropPairs = false, "", false, false, "", nil
+	c.Files = map[string]string{}
+	for _, pf := range c.Chain {
+		c.Files[pf.Path] = pf.Pom.render()
+	}
+	c.Main = c.Chain[0].Path
+	in := filepath.Join(dir, "in")
+	for p, content := range c.Files {
+		full := filepath.Join(in, p)
+		os.MkdirAll(filepath.Dir(full), 0o755)
+		if err := os.WriteFile(full, []byte(content), 0o644); err != nil {
+			panic(err)
+		}
+	}
+	m, err := readMaven(in, c.Main)
+	if err != nil {
+		c.Outcome, c.Err = "read-error", err.Error()
+		return
+	}
+	reqs := allReqs(m)
+	if pickUpdates != nil {
+		c.Updates = pickUpdates(m, reqs)
+	}
+	for _, r := range reqs {
+		c.Reqs = append(c.Reqs, mReqString(r))
+	}
+	c.domain()
+
+	ups := make([]result.PackageUpdate, len(c.Updates))
+	for i, u := range c.Updates {
+		ups[i] = result.PackageUpdate{Name: u.Name, VersionFrom: u.From, VersionTo: u.To, Type: u.depType()}
+	}
+	outRoot := filepath.Join(dir, "out")
+	func() {
+		defer func() {
+			if r := recover(); r != nil {
+				c.Outcome, c.Err = "panic", fmt.Sprint(r)
+			}
+		}()
+		if err := guidedremediation.VerifManifestWrite(resolve.Maven, "", m, scalibrfs.DirFS(in), ups, filepath.Join(outRoot, c.Main)); err != nil {
+			c.Outcome, c.Err = "err", err.Error()
+			return
+		}
+		c.Outcome = "ok"
+	}()
+	if c.Outcome != "ok" {
+		return
+	}
+	// written files: the main pom and every local parent that was visited
+	c.Out = map[string]string{}
+	insertion := false
+	for _, u := range c.Updates {
+		insertion = insertion || u.New
+	}
+	c.TokensOK = true
+	for p, content := range c.Files {
+		b, err := os.ReadFile(filepath.Join(outRoot, p))
+		if err != nil {
+			// not every generated file is necessarily a parent in use: copy for the re-read
+			full := filepath.Join(outRoot, p)
+			os.MkdirAll(filepath.Dir(full), 0o755)
+			os.WriteFile(full, []byte(content), 0o644)
+			continue
+		}
+		c.Out[p] = string(b)
+		ok, note := compareTokens(content, string(b), len(c.Updates) == 0, insertion)
+		if !ok {
+			c.TokensOK = false
+			c.TokensNote = p + ": " + note
+		}
+	}
+	if _, ok := c.Out[c.Main]; !ok {
+		c.TokensOK, c.TokensNote = false, "main pom not written"
+	}
+	m2, err := readMaven(outRoot, c.Main)
+	if err != nil {
+		c.Err = "reread: " + err.Error()
+		return
+	}
+	for _, r := range allReqs(m2) {
+		c.Reread = append(c.Reread, mReqString(r))
+	}
+	for _, r := range reqs {
+		u0 := updateOfReq(r, "")
+		for _, u := range c.Updates {
+			if !u.New && u.Name == r.Name && mReqKey(u.Name, u.Type, u.Classifier) == mReqKey(u0.Name, u0.Type, u0.Classifier) && u.From == r.Version {
+				r.Version = u.To
+				break
+			}
+		}
+		c.Want = append(c.Want, mReqString(r))
+	}
+	a, b := append([]string{}, c.Want...), append([]string{}, c.Reread...)
+	sort.Strings(a)
+	sort.Strings(b)
+	c.RereadOK = strings.Join(a, "\n") == strings.Join(b, "\n")
+	if insertion {
+		// added management entries show up as extra requirements: only require the originals to be intact
+		have := map[string]int{}
+		for _, s := range b {
+			have[s]++
+		}
+		c.RereadOK = true
+		for _, s := range a {
+			if have[s] == 0 {
+				c.RereadOK = false
+			}
+			have[s]--
+		}
+	}
+}
+
+// domain computes the structural part of the oracle's domain and the generatePropertyPatches calls
+// that buildPatches has to make for these updates (from the original, un-interpolated requirements).
+//
+// claimed: every update is addressed to a requirement present in a local pom; no two updates share a
+// requirement key; the version text of an addressed dependency is spelled without surrounding blanks or
+// comments; a property that has to change is referenced exactly once in all the files (otherwise other
+// requirements change with it) and defined exactly once.
+func (c *pomCase) domain() {
+	c.Claimed = true
+	note := func(s string) {
+		c.Claimed = false
+		if c.ClaimNote == "" {
+			c.ClaimNote = s
+		}
+	}
+	all := ""
+	for _, f := range c.Files {
+		all += f + "\n"
+	}
+	if strings.Contains(all, "<!-- pinned -->") {
+		// comment inside a <version> element: dropped by the re-encoding even without updates (known finding)
+		note("comment inside a version element")
+	}
+	seen := map[string]bool{}
+	for _, u := range c.Updates {
+		if u.New {
+			note("update not addressed to a present requirement")
+			continue
+		}
+		k := mReqKey(u.Name, u.Type, u.Classifier)
+		if seen[k] {
+			note("two updates for one requirement key")
+		}
+		seen[k] = true
+		orig, count, nested := c.originalVersion(u)
+		if orig == nil {
+			note("original dependency not found in the base project")
+			continue
+		}
+		if count != 1 {
+			note("requirement key declared in more than one place (the writer takes the first, whatever the origin)")
+		}
+		if nested {
+			note("declared in a profile or plugin of a parent pom (origin separator lost: update dropped)")
+		}
+		if !strings.Contains(*orig, "${") || !strings.Contains(*orig, "}") {
+			continue
+		}
+		if i := strings.Index(*orig, "${"); !strings.Contains((*orig)[i+2:], "}") {
+			continue
+		}
+		c.PropPairs = append(c.PropPairs, propPair{S1: *orig, S2: u.To})
+		for _, ph := range placeholderRe.FindAllString(*orig, -1) {
+			name := ph[2 : len(ph)-1]
+			if strings.Count(all, ph) != 1 {
+				note("property " + name + " referenced more than once")
+			}
+			if strings.Count(all, "<"+name+">") != 1 {
+				note("property " + name + " not defined exactly once")
+			}
+		}
+	}
+}
+
+// originalVersion mirrors the search order of OriginalDependency over the base project and then each
+// local parent (buildOriginalRequirements): parent reference, dependencies, dependencyManagement,
+// profiles (dependencies, dependencyManagement), pluginManagement plugins; the first entry with the
+// update's groupId:artifactId:type:classifier and a non-empty version.
+func (c *pomCase) originalVersion(u mUpdate) (first *string, count int, nested bool) {
+	typ := u.Type
+	if typ == "" {
+		typ = "jar"
+	}
+	match := func(g, a, t, cl, v string) bool {
+		if t == "" {
+			t = "jar"
+		}
+		return g+":"+a == u.Name && t == typ && cl == u.Classifier && v != ""
+	}
+	for fi, pf := range c.Chain {
+		p := pf.Pom
+		if p.Parent != nil && match(p.Parent.G, p.Parent.A, "pom", "", p.Parent.V) {
+			count++
+			if first == nil {
+				first = &p.Parent.V
+			}
+		}
+		lists := [][]pDep{p.Deps, p.Mgmt}
+		if !p.HasDeps {
+			lists[0] = nil
+		}
+		if !p.HasMgmt {
+			lists[1] = nil
+		}
+		for _, pr := range p.Profiles {
+			lists = append(lists, pr.Deps, pr.Mgmt)
+		}
+		for _, pl := range p.Plugins {
+			if pl.Managed {
+				lists = append(lists, pl.Deps)
+			}
+		}
+		for li, l := range lists {
+			for i := range l {
+				if match(l[i].G, l[i].A, l[i].Type, l[i].Classifier, l[i].V) {
+					count++
+					if first == nil {
+						first = &l[i].V
+						nested = fi > 0 && li >= 2 // in a profile or plugin of a parent pom
+					}
+				}
+			}
+		}
+	}
+	return first, count, nested
+}
 
 type pomEmitter struct{}
 
-func (pomEmitter) header() string                        { return "" }
-func (pomEmitter) caseType() string                      { return "mcase" }
-func (pomEmitter) generate(*rand.Rand, int) []anyCase    { return nil }
-func (pomEmitter) fromJSON(json.RawMessage) (anyCase, error) { return nil, errors.New("todo") }
+func (pomEmitter) header() string {
+	return "From Coq Require Import List ZArith NArith Bool.\n" +
+		"From Scalibr Require Import Writers.GoBytes Writers.PomProps Writers.PomWriter.\nImport ListNotations.\n"
+}
+func (pomEmitter) caseType() string { return "mcase" }
+
+func (pomEmitter) fromJSON(raw json.RawMessage) (anyCase, error) {
+	var c pomCase
+	if err := json.Unmarshal(raw, &c); err != nil {
+		return nil, err
+	}
+	c.run(nil)
+	return &c, nil
+}
+
+func simplePom(props [][2]string, v string, style int) *pPom {
+	return &pPom{G: "g", A: "a", V: "1", Ind: "  ", NL: "\n", Props: props, HasDeps: true,
+		Deps:  []pDep{{G: "org.example", A: "alpha", V: v, VStyle: style}},
+		Order: []string{"coords", "parent", "props", "deps", "mgmt", "profiles", "build"}}
+}
+
+func (pomEmitter) generate(rng *rand.Rand, n int) []anyCase {
+	var out []anyCase
+	fixed := func(stream string, pom *pPom, ups []mUpdate) {
+		c := &pomCase{Stream: stream, Chain: []pomFile{{Path: "pom.xml", Pom: pom}}, Updates: ups}
+		c.run(nil)
+		out = append(out, c)
+	}
+	// boundary cases, always present
+	fixed("boundary", simplePom([][2]string{{"minor", "5"}}, "1.${minor}", 0), []mUpdate{{Name: "org.example:alpha", From: "1.5", To: "1"}})
+	fixed("boundary", simplePom([][2]string{{"minor", "5"}}, "1.${minor}", 0), []mUpdate{{Name: "org.example:alpha", From: "1.5", To: "1.7"}})
+	fixed("boundary", simplePom([][2]string{{"v", "32.0"}}, "${v}-jre", 0), []mUpdate{{Name: "org.example:alpha", From: "32.0-jre", To: "33"}})
+	fixed("boundary", simplePom(nil, "1.0", 0), []mUpdate{{Name: "org.example:alpha", From: "1.0", To: "1.1"}})
+	fixed("boundary", simplePom(nil, "1.0", 2), nil)
+	fixed("boundary", simplePom(nil, "1.0", 3), nil)
+	fixed("boundary", simplePom(nil, "1.0", 1), []mUpdate{{Name: "org.example:alpha", From: "1.0", To: "1.1"}})
+	fixed("zero-updates", simplePom(nil, "1.0", 0), nil)
+	{ // the same key in dependencies and dependencyManagement, update addressed to the managed requirement
+		p := simplePom(nil, "1.0", 0)
+		p.HasMgmt, p.Mgmt = true, []pDep{{G: "org.example", A: "alpha", V: "2.0"}}
+		fixed("boundary", p, []mUpdate{{Name: "org.example:alpha", From: "2.0", To: "2.5", Origin: "management"}})
+	}
+	{ // requirement declared in a profile of the local parent
+		child := simplePom(nil, "1.0", 0)
+		child.Parent = &pParentRef{G: "g", A: "par", V: "7", Rel: "../pom.xml"}
+		par := simplePom(nil, "3.0", 0)
+		par.A, par.V, par.Packaging = "par", "7", "pom"
+		par.Deps[0].A = "in-parent"
+		par.Profiles = []pProfile{{ID: "p1", Deps: []pDep{{G: "org.example", A: "in-profile", V: "1.0"}}}}
+		for _, u := range []mUpdate{{Name: "org.example:in-profile", From: "1.0", To: "1.1"}, {Name: "org.example:in-parent", From: "3.0", To: "3.1"}} {
+			c := &pomCase{Stream: "boundary", Chain: []pomFile{{Path: "child/pom.xml", Pom: child}, {Path: "pom.xml", Pom: par}}, Updates: []mUpdate{u}}
+			c.run(nil)
+			out = append(out, c)
+		}
+	}
+	{ // requirement of the grandparent whose key is also declared in a profile of the parent
+		child := simplePom(nil, "1.0", 0)
+		child.Parent = &pParentRef{G: "g", A: "par", V: "7", Rel: "../parent/pom.xml"}
+		par := simplePom(nil, "3.0", 0)
+		par.A, par.V, par.Packaging, par.HasDeps, par.Deps = "par", "7", "pom", false, nil
+		par.Parent = &pParentRef{G: "g", A: "gp", V: "8", Rel: "../gp/pom.xml"}
+		par.Profiles = []pProfile{{ID: "p1", Deps: []pDep{{G: "org.example", A: "beta", V: "4.12"}}}}
+		gp := simplePom(nil, "2.0", 0)
+		gp.A, gp.V, gp.Packaging = "gp", "8", "pom"
+		gp.Deps[0].A = "beta"
+		c := &pomCase{Stream: "boundary", Chain: []pomFile{{Path: "child/pom.xml", Pom: child}, {Path: "parent/pom.xml", Pom: par}, {Path: "gp/pom.xml", Pom: gp}},
+			Updates: []mUpdate{{Name: "org.example:beta", From: "2.0", To: "2.1"}}}
+		c.run(nil)
+		out = append(out, c)
+	}
+	{ // two requirements share one property, one of them is updated
+		p := simplePom([][2]string{{"v", "1.0"}}, "${v}", 0)
+		p.Deps = append(p.Deps, pDep{G: "org.example", A: "beta", V: "${v}"})
+		fixed("boundary", p, []mUpdate{{Name: "org.example:alpha", From: "1.0", To: "2.0"}})
+	}
+
+	for k := 0; k < n; k++ {
+		c := &pomCase{Chain: genProject(rng)}
+		r := rng.Intn(100)
+		switch {
+		case r < 12:
+			c.Stream = "zero-updates"
+			c.run(func(guidedremediation.VerifManifest, []resolve.RequirementVersion) []mUpdate { return nil })
+		case r < 90:
+			c.Stream = "addressed"
+			c.run(func(m guidedremediation.VerifManifest, reqs []resolve.RequirementVersion) []mUpdate {
+				var ups []mUpdate
+				want := 1 + rng.Intn(3)
+				for _, j := range rng.Perm(len(reqs)) {
+					if len(ups) >= want {
+						break
+					}
+					rq := reqs[j]
+					if strings.Contains(rq.Name, "${") || strings.Contains(rq.Version, "${") {
+						continue // unresolved properties are skipped by the suggester as well
+					}
+					if o, _ := rq.Type.GetAttr(dep.MavenDependencyOrigin); o == "parent" || rq.Version == "" {
+						continue // a local parent cannot be re-versioned from the child; no version: nothing to update
+					}
+					to := pick(rng, mNewVers)
+					if to == rq.Version {
+						continue
+					}
+					ups = append(ups, updateOfReq(rq, to))
+				}
+				return ups
+			})
+		default:
+			c.Stream = "new-management"
+			c.run(func(m guidedremediation.VerifManifest, reqs []resolve.RequirementVersion) []mUpdate {
+				ups := []mUpdate{{Name: "org.new:" + pick(rng, mArtifacts), From: "", To: pick(rng, mNewVers), Origin: "management", New: true}}
+				if rng.Intn(2) == 0 {
+					ups = append(ups, mUpdate{Name: "org.new:second", From: "", To: "2.2", Origin: "management", New: true, Classifier: "tests"})
+				}
+				for _, j := range rng.Perm(len(reqs)) {
+					rq := reqs[j]
+					if !strings.Contains(rq.Version, "${") && rng.Intn(2) == 0 {
+						ups = append(ups, updateOfReq(rq, pick(rng, mNewVers)))
+						break
+					}
+				}
+				return ups
+			})
+		}
+		if c.Outcome == "read-error" {
+			c.Stream += "/read-error"
+			continue
+		}
+		out = append(out, c)
+	}
+	return out
+}
